@@ -443,3 +443,51 @@ def facts_of_variant(eng, ret, idx):
 def show_fact(f, d=6):
     t, rel, v = f
     return "%s %s %s" % (show(t, d), rel, v)
+
+
+# ---- completeness of a traversal -------------------------------------------------------------------------------------
+LENGTH_PRESERVING_ADAPTORS = ("peekable", "rev", "by_ref", "fuse")
+
+
+def whole_of(t, eng=None, ordered=False):
+    """the collection a (collected / mapped / cloned / enumerated / peekable / reversed ...) iterator or collection term
+    traverses COMPLETELY, element for element; None when an adaptor that can drop elements (take, skip, filter, zip,
+    step_by, a sub-slice ...) or an unknown construct intervenes; with ordered=True the traversal must also keep the
+    source's order (no rev; sorted / keyed collections are unknown constructs anyway).  A vector filled by a loop that pushes exactly one
+    element per iteration is the image of what the loop iterates (needs `eng` to find the loop's iterator)."""
+    seen = 0
+    while is_t(t) and seen < 64:
+        seen += 1
+        op = t.op
+        if op in ("collected", "cloned_iter", "enumerated", "refv", "deref", "conv", "copied"):
+            t = t.args[0]
+        elif op == "mapped":
+            t = t.args[0]
+        elif op == "adapted":
+            if t.args[1] not in LENGTH_PRESERVING_ADAPTORS or (ordered and t.args[1] == "rev"):
+                return None
+            t = t.args[0]
+        elif op == "iter":
+            t = t.args[0]
+        elif op == "phi" and eng is not None:
+            pr = parts_of(t)
+            if not (len(pr) == 1 and pr[0][0] == "repeat" and len(pr[0][1]) == 1 and pr[0][1][0][0] in ("byte", "part")):
+                return t if not pr else None
+            if pr[0][1][0][0] == "part":
+                return None            # extend_from_slice: several elements per iteration
+            x = pr[0][1][0][1]
+            els = find_all(x, lambda z: z.op == "elem" and len(z.args) >= 2)
+            sites = {z.args[1] for z in els}
+            if len(sites) != 1:
+                return None
+            site = sites.pop()
+            its = [e["argv"][0] for e in calls(eng, "Iterator::next")
+                   if e["argv"] and e["argv"][0] is not None and contains(e["argv"][0], lambda z: z.op == "iter" and site in z.args[2:])]
+            if len(its) != 1:
+                return None
+            t = its[0]
+        elif op in ("param", "field", "payload", "phi"):
+            return t
+        else:
+            return None
+    return None
